@@ -217,10 +217,11 @@ def run_property(pid, tier='quick', seed=0, only=None):
             else:
                 known_lines.append(f'NOTE: known finding {kid} no longer reproduces ({rec["cid"]}/{k["obligation"]}); consider marking it fixed')
     for cr in closed_results:
-        n_ob += 1
+        cnt = int(cr.get('count', 1))
+        n_ob += cnt
         v = cr['verdict']
         if v == 'unsat':
-            n_dis += 1
+            n_dis += cnt
             by_backend[cr.get('backend', 'closed-eval')] = by_backend.get(cr.get('backend', 'closed-eval'), 0) + 1
             if len(samples) < 8:
                 samples.append(dict(obligation=f'{pid}/{cr["name"]}', clause=cr.get('detail', '')[:300]))
@@ -229,7 +230,7 @@ def run_property(pid, tier='quick', seed=0, only=None):
             if kf is not None and cr.get('all_known', True):
                 n_dis += 0
                 known_lines.append(f'KNOWN-FINDING: property={pid} {kf["what"]} [{cr["name"]}]')
-                n_ob -= 1
+                n_ob -= cnt
             else:
                 os.makedirs(REPLAY_DIR, exist_ok=True)
                 path = os.path.join(REPLAY_DIR, f'{pid}_{cr["name"].replace("/", "_").replace(":", "_")}.json')
